@@ -249,7 +249,7 @@ impl Sim {
                 self.update_model(ev, &sender, &delta);
                 if matches!(
                     ev.op,
-                    Op::CreatePair { .. } | Op::AddNativeDecimals { .. } | Op::MigratePair { .. }
+                    Op::CreatePair { .. } | Op::AddNativeDecimals { .. } | Op::MigratePair { .. } | Op::Raw { .. }
                 ) {
                     crate::orc_factory::audit_registry(self, ev.seq, cov);
                 }
@@ -263,11 +263,71 @@ impl Sim {
         self.update_model_op(&ev.op, delta);
     }
 
+    /// a raw JSON message that the factory accepted has the same effect on the deployment as
+    /// its typed form (a stale raw "attack" can be delivered after its sender became owner)
+    fn raw_factory_as_typed(&self, target: &AddrRef, msg: &str) -> Option<Op> {
+        if self.model.addr(target)? != self.model.factory {
+            return None;
+        }
+        let m: haloswap::factory::ExecuteMsg = serde_json::from_str(msg).ok()?;
+        let asset_ref = |i: &AssetInfo| -> AssetRef {
+            match i {
+                AssetInfo::NativeToken { denom } => AssetRef::Native(denom.clone()),
+                AssetInfo::Token { contract_addr } => {
+                    match self.model.tokens.iter().position(|t| t == contract_addr) {
+                        Some(k) => AssetRef::Token(k),
+                        None => match self.model.pairs.iter().position(|p| p.lp == *contract_addr) {
+                            Some(k) => AssetRef::Lp(k),
+                            None => AssetRef::Raw(contract_addr.clone()),
+                        },
+                    }
+                }
+            }
+        };
+        Some(match m {
+            haloswap::factory::ExecuteMsg::UpdateConfig {
+                owner,
+                token_code_id,
+                pair_code_id,
+            } => Op::UpdateConfig {
+                owner: owner.map(AddrRef::Raw),
+                token_code_id,
+                pair_code_id,
+            },
+            haloswap::factory::ExecuteMsg::AddNativeTokenDecimals { denom, decimals } => {
+                Op::AddNativeDecimals { denom, decimals }
+            }
+            haloswap::factory::ExecuteMsg::CreatePair {
+                asset_infos,
+                requirements,
+                commission_rate,
+                lp_token_info,
+            } => Op::CreatePair {
+                assets: [asset_ref(&asset_infos[0]), asset_ref(&asset_infos[1])],
+                whitelist: requirements
+                    .whitelist
+                    .iter()
+                    .map(|a| AddrRef::Raw(a.to_string()))
+                    .collect(),
+                min0: requirements.first_asset_minimum,
+                min1: requirements.second_asset_minimum,
+                commission: commission_rate.map(|c| c.to_string()),
+                lp_decimals: lp_token_info.lp_token_decimals,
+            },
+            haloswap::factory::ExecuteMsg::MigratePair { .. } => return None,
+        })
+    }
+
     fn update_model_op(&mut self, op: &Op, delta: &Delta) {
         match op {
             Op::Batch(ops) => {
                 for o in ops {
                     self.update_model_op(o, delta);
+                }
+            }
+            Op::Raw { target, msg, .. } => {
+                if let Some(typed) = self.raw_factory_as_typed(target, msg) {
+                    self.update_model_op(&typed, delta);
                 }
             }
             Op::CreatePair {
